@@ -16,7 +16,7 @@ def composite : Op → Bool
 
 /-- What it means for the machine to refine the owned model on one op at one node: same outcome;
 on success the node holds the new value (canonically); on an error of a non-composite op nothing
-changed. `Err.initFail` (an initialiser failing behind the resize — known finding) is not claimed. -/
+changed (composite ops failing half-way are the subject of `err_canonical`). `Err.initFail` (an initialiser failing behind the resize — known finding) is not claimed. -/
 def Refines (s : Shape) (v : Val) (p : List Step) (t : Shape) (u : Val) (m : Mem) (op : Op) : Prop :=
   match Spec.applyNode t u op with
   | .ok (u', r) =>
@@ -24,8 +24,7 @@ def Refines (s : Shape) (v : Val) (p : List Step) (t : Shape) (u : Val) (m : Mem
       ∃ m' : Mem, applyAt ⟨s, p⟩ t (offsetOf s v p) op m = (m', .ok r)
         ∧ Focus s (subst s v p u') p t u' m' ∧ m'.orig = m.orig ∧ m'.refuse = m.refuse
   | .error .initFail => True
-  | .error e =>
-    ∃ m' : Mem, applyAt ⟨s, p⟩ t (offsetOf s v p) op m = (m', .error e) ∧ (composite op = false → m' = m)
+  | .error e => composite op = true ∨ applyAt ⟨s, p⟩ t (offsetOf s v p) op m = (m, .error e)
 
 theorem Focus.small {s v p t u m} (_F : Focus s v p t u m) (c : Calm m) (X : List Nat)
     (h : (plug s v p X).length ≤ m.orig + maxIncrease) : (plug s v p X).length < Shape.u32Lim := by
